@@ -263,6 +263,9 @@ func runGeomCase(c *GeomCase, w writer) {
 			e.s("]")
 		}
 	case "solve":
+		if geom.VerifSolveUnavailable {
+			e.s(`,"nosolve":1`)
+		}
 		solveResult(&e, c, roots, rootsNil)
 	}
 	e.s("}\n")
